@@ -380,16 +380,17 @@ def run(check):
         'the response side (fault serialisation, HTTP status) is observed by the oracle, not modelled (C09, C13)',
         'time and memory are outside the model',
     ]
-    check.regen(['reqpipe', 'numtypes'])
-    check.check_sources()
-    check.prove('Props.C10', THEOREMS)
-    ok, log = lib.build(['C10/Corr.vo'])
-    if not ok:
-        check.log(log[-3000:])
-        check.broken.append(('build', 'C10/Corr.vo', log[-400:]))
     sv = D.Services()
-    leaf_correspondence(check, sv)
-    correspondence(check, sv)
+    if not os.environ.get('C10_ONLY_ORACLE'):          # development switch
+        check.regen(['reqpipe', 'numtypes'])
+        check.check_sources()
+        check.prove('Props.C10', THEOREMS)
+        ok, log = lib.build(['C10/Corr.vo'])
+        if not ok:
+            check.log(log[-3000:])
+            check.broken.append(('build', 'C10/Corr.vo', log[-400:]))
+        leaf_correspondence(check, sv)
+        correspondence(check, sv)
     if not os.environ.get('C10_SKIP_ORACLE'):      # development switch
         oracle_campaign(check, sv, 'rich', U.RICH_DESC)
         get_out_object_probe(check, sv, 'rich')
